@@ -16,7 +16,9 @@ package main
 
 import (
 	"fmt"
+	"math"
 	"net"
+	"sync"
 	"os"
 	"path/filepath"
 	"runtime"
@@ -27,6 +29,49 @@ import (
 	"raven/internal/delivery/storage"
 	"raven/internal/sasl"
 )
+
+// c20Conn is the server side of a pipe whose deadlines are (a) recorded as the
+// duration the handler asked for and (b) compressed, so that "the client stays
+// silent for 30 minutes" can be observed in seconds:
+//   >= 20 min -> 3 s;  1 min .. 20 min -> 1.5 s;  10 s .. 1 min -> 1 s;  below: unchanged.
+type c20Conn struct {
+	net.Conn
+	tlsFlag bool
+	mu      sync.Mutex
+	log     []int // requested durations, ms
+}
+
+func (c *c20Conn) IsTLS() bool { return c.tlsFlag }
+
+func c20Compress(d time.Duration) time.Duration {
+	switch {
+	case d >= 20*time.Minute:
+		return 3 * time.Second
+	case d >= time.Minute:
+		return 1500 * time.Millisecond
+	case d >= 10*time.Second:
+		return time.Second
+	}
+	return d
+}
+
+func (c *c20Conn) note(t time.Time) time.Time {
+	if t.IsZero() {
+		c.mu.Lock()
+		c.log = append(c.log, 0)
+		c.mu.Unlock()
+		return t
+	}
+	d := time.Until(t)
+	c.mu.Lock()
+	c.log = append(c.log, int(math.Round(float64(d)/float64(time.Millisecond))))
+	c.mu.Unlock()
+	return time.Now().Add(c20Compress(d))
+}
+func (c *c20Conn) SetReadDeadline(t time.Time) error { return c.Conn.SetReadDeadline(c.note(t)) }
+func (c *c20Conn) SetDeadline(t time.Time) error     { return c.Conn.SetDeadline(c.note(t)) }
+
+var c20Conns = map[string]*c20Conn{}
 
 type c20Server struct {
 	svc      string
@@ -83,11 +128,41 @@ func c20Census() Obs {
 func init() {
 	register("c20_census", func(w *World, op Op) Obs { return c20Census() })
 
+	// c20_open: IMAP connection whose server side records + compresses deadlines
+	register("c20_open", func(w *World, op Op) Obs {
+		name := op.str("conn")
+		cside, pside := net.Pipe()
+		sside := &c20Conn{Conn: pside, tlsFlag: op.str("kind") != "plain"}
+		if !sside.tlsFlag {
+			w.ensureCert()
+		}
+		c20Conns[name] = sside
+		cl := newClient(cside)
+		w.conns[name] = cl
+		go func() {
+			defer close(cl.done)
+			w.imap.HandleConnection(sside)
+		}()
+		b, how := cl.readUntil(nLines(1), 5*time.Second)
+		return Obs{"recv": b2s(b), "how": how}
+	})
+	register("c20_deadline_log", func(w *World, op Op) Obs {
+		c, ok := c20Conns[op.str("conn")]
+		if !ok {
+			return Obs{"error": "no conn"}
+		}
+		c.mu.Lock()
+		defer c.mu.Unlock()
+		return Obs{"log": append([]int(nil), c.log...)}
+	})
+
 	register("c20_lmtp_open", func(w *World, op Op) Obs {
 		name := op.str("conn")
 		cfg := lmtpConfig(op)
 		cfg.LMTP.Timeout = op.num("timeout_s", 30)
-		cside, sside := net.Pipe()
+		cside, pside := net.Pipe()
+		sside := &c20Conn{Conn: pside}
+		c20Conns[name] = sside
 		cl := newClient(cside)
 		w.conns[name] = cl
 		stor := storage.NewStorage(w.deliveryMgr(false))
@@ -102,7 +177,9 @@ func init() {
 
 	register("c20_sasl_open", func(w *World, op Op) Obs {
 		name := op.str("conn")
-		cside, sside := net.Pipe()
+		cside, pside := net.Pipe()
+		sside := &c20Conn{Conn: pside}
+		c20Conns[name] = sside
 		cl := newClient(cside)
 		w.conns[name] = cl
 		srv := sasl.NewServer("", "", w.auth.url(), "example.com")
